@@ -14,6 +14,19 @@
 //	stress <seed>       => ok | viol <monitor> <detail>   8 goroutines allocate/release/look up concurrently on a FRESH
 //	                       PoolAllocator + store of the same geometry; afterwards uniqueness, count and store agreement are audited
 //	audit               => s1=<store>|<lookup>,…;<unit>=<GetByIP owner>,…;<GetPoolUtilization allocated>
+//
+// A SECOND PoolAllocator "q" of the same geometry shares the store (two pools with overlapping ranges: every unit of
+// one collides with the same unit of the other in the store's by-IP index):
+//
+//	qalloc s3 <f> | qrelease s3 <f> | qlookup s3 | qaudit     the same operations on pool q
+//	xaudit              => <unit>=<holders in p>|<holders in q>|<by-IP owner: p/s1, q/s2, o/… or ->,…
+//
+// Alias probes: the harness keeps every *net.IPNet it was given (Allocate, Lookup) and every one it handed in
+// (`foreign`), and can write through all of them and through whatever the store's getters return:
+//
+//	scribble            => ok    overwrite the bytes of every kept result and input, and of the Prefix (and the
+//	                             SubscriberID / PoolID of GetByIP's *AllocationRecord) of every record returned by
+//	                             GetByPool / GetBySubscriber / GetByIP; none of this is an operation of the store
 package main
 
 import (
@@ -131,6 +144,39 @@ func (g geo) randOp(r *rand.Rand, subs int) string {
 	}
 }
 
+// randOp2: the two pools over one store, with writes through every pointer the caller holds
+func (g geo) randOp2(r *rand.Rand, subs int) string {
+	s := fmt.Sprintf("s%d", 1+r.Intn(subs))
+	switch x := r.Intn(100); {
+	case x < 18:
+		return "alloc " + s + " " + flag(r, 15)
+	case x < 36:
+		return "qalloc " + s + " " + flag(r, 15)
+	case x < 46:
+		return "release " + s + " " + flag(r, 20)
+	case x < 56:
+		return "qrelease " + s + " " + flag(r, 20)
+	case x < 60:
+		return "lookup " + s
+	case x < 64:
+		return "qlookup " + s
+	case x < 78:
+		return "scribble"
+	case x < 82:
+		return "foreign " + g.addrTok(r.Int63n(g.units()))
+	case x < 85:
+		return "unforeign " + g.addrTok(r.Int63n(g.units()))
+	case x < 87:
+		return "rtstore"
+	case x < 92:
+		return "xaudit"
+	case x < 96:
+		return "qaudit"
+	default:
+		return "audit"
+	}
+}
+
 func (comp) Gen(r *rand.Rand, tier string, emit func([]string)) {
 	n := 3000
 	if tier == "thorough" {
@@ -144,6 +190,20 @@ func (comp) Gen(r *rand.Rand, tier string, emit func([]string)) {
 			seq = append(seq, g.randOp(r, subs))
 		}
 		seq = append(seq, "audit", "stats", "rtstore", "audit")
+		emit(seq)
+	}
+	for i := 0; i < n/3; i++ {
+		g := geos[r.Intn(len(geos))]
+		subs := 2 + r.Intn(3)
+		seq := []string{g.newOp(subs)}
+		for j, m := 0, 3+r.Intn(24); j < m; j++ {
+			op := g.randOp2(r, subs)
+			seq = append(seq, op)
+			if op == "scribble" && r.Intn(2) == 0 {
+				seq = append(seq, "xaudit")
+			}
+		}
+		seq = append(seq, "scribble", "audit", "qaudit", "xaudit", "stats", "rtstore", "xaudit")
 		emit(seq)
 	}
 	for i := 0; i < 20; i++ {
@@ -168,6 +228,21 @@ func (comp) Gen(r *rand.Rand, tier string, emit func([]string)) {
 			}
 		}
 		rec(nil, 5)
+		// two pools and the alias probes: every sequence of 5 over the two pools, one subscriber each side plus a rival
+		alpha = []string{"alloc s1 0", "alloc s2 0", "qalloc s1 0", "qalloc s1 1", "qalloc s2 0", "release s1 0", "qrelease s1 0",
+			"qrelease s2 0", "scribble", "foreign " + g.addrTok(1)}
+		rec = func(prefix []string, depth int) {
+			if depth == 0 {
+				seq := append([]string{g.newOp(3)}, prefix...)
+				seq = append(seq, "scribble", "alloc s3 0", "qalloc s3 0", "audit", "qaudit", "xaudit")
+				emit(seq)
+				return
+			}
+			for _, a := range alpha {
+				rec(append(prefix[:len(prefix):len(prefix)], a, "xaudit"), depth-1)
+			}
+		}
+		rec(nil, 5)
 	}
 }
 
@@ -176,6 +251,30 @@ type run struct {
 	nsubs int
 	fs    *faultStore
 	pa    *allocator.PoolAllocator
+	qa    *allocator.PoolAllocator
+	// every *net.IPNet the allocators returned to the harness, and every one the harness passed to the store
+	kept, keptIn []*net.IPNet
+}
+
+// scribbleNet overwrites the bytes a *net.IPNet points to (not an involution: two writes through two aliases of one
+// object do not cancel)
+func scribbleNet(n *net.IPNet) {
+	if n == nil {
+		return
+	}
+	for i := range n.IP {
+		n.IP[i] = 0xEE
+	}
+	for i := range n.Mask {
+		n.Mask[i] = 0x0F
+	}
+}
+
+func (r *run) keep(n *net.IPNet) *net.IPNet {
+	if n != nil {
+		r.kept = append(r.kept, n)
+	}
+	return n
 }
 
 func (comp) NewRun() hx.Run { return &run{} }
@@ -233,27 +332,46 @@ func (r *run) Do(op string) string {
 		r.pa = pa
 		_, total, _ := pa.Stats()
 		r.fs.SetPoolTotal("p", int(total))
+		qa, err := allocator.NewPoolAllocator("q", fmt.Sprintf("%s/%d", r.g.base, ones), pl, r.fs)
+		if err != nil {
+			return "invalid"
+		}
+		r.qa = qa
+		r.fs.SetPoolTotal("q", int(total))
+		r.kept, r.keptIn = nil, nil
 		return "ok"
 	}
 	if r.pa == nil {
 		return "badop"
 	}
 	switch f[0] {
-	case "alloc":
+	case "alloc", "qalloc":
+		pa := r.pa
+		if f[0] == "qalloc" {
+			pa = r.qa
+		}
 		r.fs.failSave = f[2] == "1"
-		n, err := r.pa.Allocate(ctx, f[1], "")
+		n, err := pa.Allocate(ctx, f[1], "")
 		r.fs.failSave = false
 		if err != nil {
 			return classify(err)
 		}
-		return "ok " + showNet(n, r.g.fam)
-	case "release":
+		return "ok " + showNet(r.keep(n), r.g.fam)
+	case "release", "qrelease":
+		pa := r.pa
+		if f[0] == "qrelease" {
+			pa = r.qa
+		}
 		r.fs.failRemove = f[2] == "1"
-		err := r.pa.Release(ctx, f[1])
+		err := pa.Release(ctx, f[1])
 		r.fs.failRemove = false
 		return classify(err)
-	case "lookup":
-		n := r.pa.Lookup(f[1])
+	case "lookup", "qlookup":
+		pa := r.pa
+		if f[0] == "qlookup" {
+			pa = r.qa
+		}
+		n := r.keep(pa.Lookup(f[1]))
 		if n == nil {
 			return "none"
 		}
@@ -266,6 +384,7 @@ func (r *run) Do(op string) string {
 		return fmt.Sprintf("%s %d %d", hx.UtilKind(al, tot, u), al, tot)
 	case "foreign":
 		n := r.parseNet(f[1])
+		r.keptIn = append(r.keptIn, n)
 		err := r.fs.MemoryAllocationStore.SaveAllocation(ctx, allocator.AllocationRecord{SubscriberID: "x" + f[1], PoolID: "other", Prefix: n})
 		if err != nil {
 			return "error"
@@ -289,37 +408,107 @@ func (r *run) Do(op string) string {
 		seed, _ := strconv.ParseInt(f[1], 10, 64)
 		return r.stress(seed)
 	case "audit":
-		recs, _ := r.fs.GetByPool(ctx, "p")
-		byKey := map[string]*net.IPNet{}
-		for _, rec := range recs {
-			byKey[rec.SubscriberID] = rec.Prefix
-		}
-		var parts []string
-		for i := 1; i <= r.nsubs; i++ {
-			sub := fmt.Sprintf("s%d", i)
-			sv := "-"
-			if n, ok := byKey[sub]; ok && n != nil {
-				sv = showNet(n, r.g.fam) + "@0"
-			}
-			lv := "-"
-			if n := r.pa.Lookup(sub); n != nil {
-				lv = showNet(n, r.g.fam)
-			}
-			parts = append(parts, fmt.Sprintf("%s=%s|%s", sub, sv, lv))
-		}
-		var rev []string
+		return r.audit(ctx, "p", r.pa)
+	case "qaudit":
+		return r.audit(ctx, "q", r.qa)
+	case "xaudit":
+		var rows []string
 		for i := int64(0); i < r.g.units() && i < 64; i++ {
 			tok := r.g.addrTok(i)
-			o := "-"
-			if rec, err := r.fs.GetByIP(ctx, r.parseNet(tok).IP); err == nil && rec != nil && rec.PoolID == "p" {
-				o = rec.SubscriberID
+			holders := func(pa *allocator.PoolAllocator) string {
+				var h []string
+				for k := 1; k <= r.nsubs; k++ {
+					sub := fmt.Sprintf("s%d", k)
+					if n := pa.Lookup(sub); n != nil && showNet(n, r.g.fam) == tok {
+						h = append(h, sub)
+					}
+				}
+				if len(h) == 0 {
+					return "-"
+				}
+				return strings.Join(h, "+")
 			}
-			rev = append(rev, tok+"="+o)
+			o := "-"
+			if rec, err := r.fs.GetByIP(ctx, r.parseNet(tok).IP); err == nil && rec != nil {
+				switch rec.PoolID {
+				case "p", "q":
+					o = rec.PoolID + "/" + rec.SubscriberID
+				case "other":
+					o = "o/" + strings.TrimPrefix(rec.SubscriberID, "x")
+				default:
+					o = "?/" + rec.PoolID
+				}
+			}
+			rows = append(rows, fmt.Sprintf("%s=%s|%s|%s", tok, holders(r.pa), holders(r.qa), o))
 		}
-		al, _, _ := r.fs.GetPoolUtilization(ctx, "p")
-		return strings.Join(parts, ",") + ";" + strings.Join(rev, ",") + ";" + strconv.Itoa(al)
+		return strings.Join(rows, ",")
+	case "scribble":
+		for _, n := range r.kept {
+			scribbleNet(n)
+		}
+		for _, n := range r.keptIn {
+			scribbleNet(n)
+		}
+		r.kept, r.keptIn = nil, nil
+		var got []allocator.AllocationRecord
+		for _, pool := range []string{"p", "q", "other"} {
+			recs, _ := r.fs.GetByPool(ctx, pool)
+			got = append(got, recs...)
+		}
+		for k := 1; k <= r.nsubs; k++ {
+			recs, _ := r.fs.GetBySubscriber(ctx, fmt.Sprintf("s%d", k))
+			got = append(got, recs...)
+		}
+		recs, _ := r.fs.GetByPoolType(ctx, allocator.PoolTypeIPv4Address)
+		got = append(got, recs...)
+		var ptrs []*allocator.AllocationRecord
+		for i := int64(0); i < r.g.units() && i < 64; i++ {
+			if rec, err := r.fs.GetByIP(ctx, r.parseNet(r.g.addrTok(i)).IP); err == nil && rec != nil {
+				ptrs = append(ptrs, rec)
+			}
+		}
+		for i := range got {
+			scribbleNet(got[i].Prefix)
+		}
+		for _, rec := range ptrs {
+			scribbleNet(rec.Prefix)
+			rec.SubscriberID, rec.PoolID = "scribbled", "scribbled"
+		}
+		return "ok"
 	}
 	return "badop"
+}
+
+func (r *run) audit(ctx context.Context, pool string, pa *allocator.PoolAllocator) string {
+	recs, _ := r.fs.GetByPool(ctx, pool)
+	byKey := map[string]*net.IPNet{}
+	for _, rec := range recs {
+		byKey[rec.SubscriberID] = rec.Prefix
+	}
+	var parts []string
+	for i := 1; i <= r.nsubs; i++ {
+		sub := fmt.Sprintf("s%d", i)
+		sv := "-"
+		if n, ok := byKey[sub]; ok && n != nil {
+			sv = showNet(n, r.g.fam) + "@0"
+		}
+		lv := "-"
+		if n := pa.Lookup(sub); n != nil {
+			lv = showNet(n, r.g.fam)
+		}
+		parts = append(parts, fmt.Sprintf("%s=%s|%s", sub, sv, lv))
+	}
+	var rev []string
+	for i := int64(0); i < r.g.units() && i < 64; i++ {
+		tok := r.g.addrTok(i)
+		o := "-"
+		if rec, err := r.fs.GetByIP(ctx, r.parseNet(tok).IP); err == nil && rec != nil && rec.PoolID == pool {
+			o = rec.SubscriberID
+		}
+		rev = append(rev, tok+"="+o)
+	}
+	al, _, _ := r.fs.GetPoolUtilization(ctx, pool)
+	return strings.Join(parts, ",") + ";" + strings.Join(rev, ",") + ";" + strconv.Itoa(al)
 }
 
 func (r *run) stress(seed int64) string {
